@@ -8,6 +8,7 @@ CONSTANTS
   PlusLocksKids = FALSE
   Scenario = "shrink"
   MaxTries = 4
+  RecheckName = TRUE
   LowestFree = FALSE
   OneOp = {1}
 PROPERTY Termination
